@@ -45,6 +45,15 @@ PROPS["C17"] = {
     "level_text": "The real CalculateBackoff, RetryWithBackoff, CircuitBreaker.Call and attemptAcquireWithRetry are executed symbolically: configuration values, attempt numbers, random draws, operation outcomes, call instants and the clock are solver variables, and band, non-negativity, invocation-count, wait and breaker state obligations are decided by z3 (5.1.0, nonlinear real arithmetic) for all of them within the bounds.",
     "level_note": "float64 arithmetic is modelled as real arithmetic with a relative rounding error per operation (full IEEE encoding does not finish); math.Pow is uninterpreted under the stated contract; trusted: front end, executor, z3.",
 }
+PROPS["C03"] = {
+    "groups": [{"run": "^vpH_C03_T_(changed|unreachable)$"}, {"run": "^vpH_C03_T_unreachable_fast$", "thorough_only": True, "args": ["-max-paths", "800000"]}],
+    "bounds": {"quick": "one real election (Start -> attemptAcquire -> becomeLeader -> heartbeatLoop, handleHeartbeatFailure, IsPermanentError) against the reference store; timing configurations (H,TTL) in {(1s,3s),(4s,12s)}, both error dialects (mock texts / nats.go values); request latency of every store operation symbolic in [0, time-out); the change (record replaced or deleted by another writer) or the beginning of the outage at a symbolic instant in [0, 2.5H]; during the outage each operation independently fails after a symbolic delay in [0,time-out] or never answers, applied or not; at most 7 store operations",
+               "thorough": "as quick plus (H,TTL)=(200ms,10s) (time-out = 5H) with the outage beginning in [0, 2.5H + time-out]"},
+    "outside": "more than ~3 heartbeats before the fault (the failure counter is reset by every success, so longer histories repeat explored shapes: stated, not proved); scheduling latency; expiry of the record underneath a leader whose refreshes succeed (cannot happen: TTL >= 3H)",
+    "assumptions": ["ValidationInterval is set to 1h so that the periodic validation (C04) does not interfere"],
+    "level_text": "The real heartbeat loop runs symbolically under a symbolic clock: the instant of the fault, every latency and every per-operation failure mode are solver variables, the goroutine schedule is explored exhaustively at store-operation legs, and the two time bounds of the property are linear-arithmetic obligations over the clock decided by z3 on every path.",
+    "level_note": "Bounded to the listed timing configurations and 7 store operations; reductions R1/R2 of DESIGN.md section 4 (atomic segments, zero-time computation) apply.",
+}
 PROPS["S00"] = {"groups": [{"run": "^vpH_S00_"}], "level_text": "engine smoke test", "level_note": ""}
 
 NOT_APPLICABLE = {}
